@@ -54,12 +54,13 @@ VARIABLES
     frames,     \* stack of live frames: <<[tmpl, h, entered]>>; frames[1] is the root scope
     acts,       \* stack of user-call activations: <<[tmpl, rec, st, fh]>>
     doomed,     \* "none" or the violation raised first in the current host call
-    grant,      \* [PermIds -> {"none", "granted", "used"}]
+    grant,      \* [PermIds -> Nat \cup {-1}]: permission checks passed and not yet consumed by an
+                \* effect; -1 marks the permission whose run of effects is in progress
     idleBase    \* accounted bytes right after a successful instantiation (-1 before)
 
 rvars == <<phase, lim, perm, acct, live, calls, frames, acts, doomed, grant, idleBase>>
 
-NoGrant == [p \in PermIds |-> "none"]
+NoGrant == [p \in PermIds |-> 0]
 Allowed(id) == IF perm[id] = "unset" THEN PermDefault(id) ELSE perm[id] = "allow"
 
 Active == phase \in {"Inst", "Running"}
@@ -77,8 +78,12 @@ BagSumOver(b, D) == IF D = {} THEN 0
 BagSum(b) == BagSumOver(b, DOMAIN b)
 EmptyBag == [s \in {} |-> 0]
 
-\* every non-Effect step ends the run of effects that consumed a grant
-Settle(g) == [p \in PermIds |-> IF g[p] = "used" THEN "none" ELSE g[p]]
+\* Grants nest (display(f(display(x))) checks the outer permission before the inner call), so
+\* they are counted: a passed check adds one, the first effect of a run of consecutive effects
+\* consumes one and the run lasts until the next non-Effect step.  The count of the permission
+\* in use is kept negative (-(n+1)) during the run.
+InUse(g, p) == g[p] < 0
+Settle(g) == [p \in PermIds |-> IF g[p] < 0 THEN -(g[p] + 1) ELSE g[p]]
 
 Doom(v) == doomed' = IF doomed = "none" THEN v ELSE doomed
 
@@ -317,17 +322,19 @@ Perm(id, allowed) ==
     /\ id \in PermIds
     /\ allowed = Allowed(id)                 \* configured value, else the documented default
     /\ IF allowed
-         THEN grant' = [Settle(grant) EXCEPT ![id] = "granted"] /\ UNCHANGED doomed
+         THEN grant' = [Settle(grant) EXCEPT ![id] = @ + 1] /\ UNCHANGED doomed
          ELSE grant' = Settle(grant) /\ Doom(PermViolation(id))
     /\ UNCHANGED <<phase, lim, perm, acct, live, calls, frames, acts, idleBase>>
 
 Effect(kind) ==
     /\ Active
     /\ PermsFor(kind) # {}
-    /\ \E p \in PermsFor(kind) :             \* only right after its permission was granted
-          /\ grant[p] \in {"granted", "used"}
+    /\ \E p \in PermsFor(kind) :             \* only after its permission check passed
           /\ Allowed(p)
-          /\ grant' = [grant EXCEPT ![p] = "used"]
+          /\ \/ InUse(grant, p) /\ UNCHANGED grant                       \* same run of effects
+             \/ /\ \A q \in PermsFor(kind) : ~InUse(grant, q)
+                /\ grant[p] >= 1
+                /\ grant' = [Settle(grant) EXCEPT ![p] = -@]               \* consume one: n -> -(n-1+1)
     /\ UNCHANGED <<phase, lim, perm, acct, live, calls, frames, acts, doomed, idleBase>>
 
 ----------------------------------------------------------------------------
